@@ -627,6 +627,29 @@ def _reversed_range(e: ast.AST) -> bool:
     return False
 
 
+def _step_names(f: Func) -> Set[str]:
+    """names used as the step of a `range(a, b, step)` that a loop of `f` iterates over"""
+    return {l.iter.args[2].id for l in ast.walk(f.node) if isinstance(l, ast.For) and isinstance(l.iter, ast.Call)
+            and norm(l.iter.func) == "range" and len(l.iter.args) == 3 and isinstance(l.iter.args[2], ast.Name)}
+
+
+def _reverses_scan(st: ast.stmt, step_names: Set[str]) -> bool:
+    """the statement makes the row loop run backwards: `rng = range(n - 1, -1, -1)` / `reversed(..)`, or it binds the loop's
+    step variable to -1 (`step = -1`, `start, stop, step = n - 1, -1, -1`)"""
+    if not isinstance(st, ast.Assign):
+        return False
+    if _reversed_range(st.value):
+        return True
+    for t in st.targets:
+        if isinstance(t, ast.Name) and t.id in step_names and const_int(st.value) == -1:
+            return True
+        if isinstance(t, ast.Tuple) and isinstance(st.value, ast.Tuple) and len(t.elts) == len(st.value.elts):
+            for a, b in zip(t.elts, st.value.elts):
+                if isinstance(a, ast.Name) and a.id in step_names and const_int(b) == -1:
+                    return True
+    return False
+
+
 def _flip_of(e: ast.AST) -> Optional[str]:
     """name of the array flipped along an axis by X[..., ::-1] / np.flip(X) / np.fliplr(X)"""
     if isinstance(e, ast.Subscript) and isinstance(e.value, ast.Name):
@@ -649,7 +672,7 @@ def rule_R1(repo: Repo) -> RuleResult:
         if isinstance(i, ast.If):
             for arm, pol in ((i.body, True), (i.orelse, False)):
                 for s in arm:
-                    if isinstance(s, ast.Assign) and _reversed_range(s.value):
+                    if _reverses_scan(s, _step_names(f)):
                         rev_tests.append((norm(i.test), pol))
     if not rev_tests:
         raise AnalysisError("R1: the backward scan of _find_first_or_last_n was not found")
@@ -1258,7 +1281,7 @@ def rule_H1(repo: Repo) -> RuleResult:
     for i in f.node.body:
         if isinstance(i, ast.If) and isinstance(i.test, ast.Compare) and npar in _names(i.test):
             for arm in (i.body, i.orelse):
-                rev = any(isinstance(s_, ast.Assign) and _reversed_range(s_.value) for s_ in arm)
+                rev = any(_reverses_scan(s_, _step_names(f)) for s_ in arm)
                 flip = any(isinstance(s_, ast.Assign) and isinstance(s_.targets[0], ast.Name) and s_.targets[0].id == npar
                            and _canon(s_.value, {}) in (("add", ("const", "-1"), ("neg", ("name", npar))),
                                                         ("add", ("neg", ("const", "1")), ("neg", ("name", npar))),
@@ -1411,6 +1434,10 @@ def rule_E5(repo: Repo) -> RuleResult:
         loop = [x for x in walk_no_nested(f.node) if isinstance(x, ast.For)][-1]
         # the element variable x: loop target that is tested by isnan
         loop_names = {x_.id for x_ in ast.walk(loop.target) if isinstance(x_, ast.Name)}
+        # `for i in range(len(arr)): x = arr[i]` binds the element like `for i, x in enumerate(arr)` does
+        loop_names |= {s_.targets[0].id for s_ in loop.body if isinstance(s_, ast.Assign) and len(s_.targets) == 1
+                       and isinstance(s_.targets[0], ast.Name) and isinstance(s_.value, ast.Subscript)
+                       and base_name(s_.value) in f.named_params and _names(s_.value.slice) & loop_names}
         xs = {norm(c.args[0]) for c in ast.walk(loop) if isinstance(c, ast.Call) and norm(c.func) in ("np.isnan", "is_null", "isnan")
               and c.args and isinstance(c.args[0], ast.Name) and c.args[0].id in loop_names}
         if len(xs) != 1:
